@@ -5,6 +5,7 @@ from shexer.model.statement import POSITIVE_CLOSURE, KLEENE_CLOSURE, OPT_CARDINA
 from shexer.utils.uri import XSD_NAMESPACE, LANG_STRING_TYPE
 from shexer.model.const_elem_types import IRI_ELEM_TYPE, LITERAL_ELEM_TYPE, DOT_ELEM_TYPE, BNODE_ELEM_TYPE, NONLITERAL_ELEM_TYPE
 from shexer.io.wikidata import wikidata_annotation
+from shexer.model.fixed_prop_choice_statement import FixedPropChoiceStatement
 from wlighter import TURTLE_FORMAT
 
 _EXPECTED_SHAPE_BEGINING = STARTING_CHAR_FOR_SHAPE_NAME + "<"
@@ -30,6 +31,7 @@ _R_SHACL_NODEKIND_PROP = URIRef(_SHACL_NAMESPACE + "nodeKind")
 _R_SHACL_NODE_PROP = URIRef(_SHACL_NAMESPACE + "node")
 
 _R_SHACL_IN_PROP = URIRef(_SHACL_NAMESPACE + "in")
+_R_SHACL_OR_PROP = URIRef(_SHACL_NAMESPACE + "or")
 
 _R_SHACL_PATTERN_PROP = URIRef(_SHACL_NAMESPACE + "pattern")
 
@@ -262,23 +264,38 @@ class ShaclSerializer(object):
                              type_node)
 
     def _add_node_type(self, statement, r_constraint_node):
+        if isinstance(statement, FixedPropChoiceStatement):  # a disjunction: sh:or over one anonymous shape per alternative
+            self._add_or_of_node_types(st_types=statement.st_types,
+                                       r_constraint_node=r_constraint_node)
+        else:
+            self._add_single_node_type(target_type=statement.st_type,
+                                       r_constraint_node=r_constraint_node)
+
+    def _add_or_of_node_types(self, st_types, r_constraint_node):
+        list_node = self._generate_bnode()
+        self._add_triple(r_constraint_node, _R_SHACL_OR_PROP, list_node)
+        for i, a_type in enumerate(st_types):
+            r_alternative = self._generate_bnode()
+            self._add_single_node_type(target_type=a_type,
+                                       r_constraint_node=r_alternative)
+            self._add_triple(list_node, RDF.first, r_alternative)
+            next_node = self._generate_bnode() if i < len(st_types) - 1 else RDF.nil
+            self._add_triple(list_node, RDF.rest, next_node)
+            list_node = next_node
+
+    def _add_single_node_type(self, target_type, r_constraint_node):
         #  sh:dataType for literal types
         #  sh:nodeKind for IRI or similar macros.
         #  sh:node for a shape
-        # if self._is_literal(statement.st_type):
-        #     self._add_dataType_literal(r_constraint_node=r_constraint_node,
-        #                                target_type=statement.st_type)
-        if self._is_macro(statement.st_type):
+        if self._is_macro(target_type):
             self._add_nodeKind_macro(r_constraint_node=r_constraint_node,
-                                     target_type=statement.st_type)
-        elif self._is_a_shape(statement.st_type):
+                                     target_type=target_type)
+        elif self._is_a_shape(target_type):
             self._add_node_shape(r_constraint_node=r_constraint_node,
-                                 target_type=statement.st_type)
+                                 target_type=target_type)
         else:  # It should be a literal
             self._add_dataType_literal(r_constraint_node=r_constraint_node,
-                                       target_type=statement.st_type)
-        # else:
-        #     raise ValueError("Check here: ")
+                                       target_type=target_type)
 
 
     def _min_occurs_from_cardinality(self, cardinality):
